@@ -592,6 +592,12 @@ def summarise(prop, tier, seed, obls, results, wall):
             exhaustive=False))
     with open(os.path.join(VERIF, "evidence", "%s.json" % prop), "w") as f:
         json.dump(ev, f, indent=1, default=repr)
+    if tier != "quick":
+        # keep the last thorough run next to the (more often rewritten)
+        # evidence file
+        with open(os.path.join(VERIF, "evidence",
+                               "%s.thorough.json" % prop), "w") as f:
+            json.dump(ev, f, indent=1, default=repr)
     lines.append("%s tier=%s: %d/%d (obligation,shape) jobs discharged, "
                  "%d violation(s), %d inconclusive, %d paths, %d queries, "
                  "%.1fs" % (prop, tier, n_dis, n_obl, len(viol), len(inc),
